@@ -32,6 +32,15 @@ pub fn judge_trailing(ls: &LangSet, code: &str, n: u64, int_phrase: &str) -> Opt
     if v.is_ok() {
         return Some(format!("text2digits({:?}) = {:?}, expected an error (two numerals)", text, v));
     }
+    // the same as a word stream in which the zero is said after a pause (it declares itself unrelated to the word before)
+    let mut toks: Vec<crate::api::IdTok> = int_phrase.split(' ').filter(|w| !w.is_empty()).enumerate().map(|(i, w)| crate::api::IdTok::new(i as u64, w)).collect();
+    let mut z = crate::api::IdTok::new(toks.len() as u64, info.zero);
+    z.sep = true;
+    toks.push(z);
+    let occs = api.find(&toks, 0.0);
+    if occs.len() != 2 || occs[0].text != n.to_string() || occs[1].text != "0" {
+        return Some(format!("word stream of {:?} followed, after a pause, by {:?}: occurrences {} , expected {:?} then \"0\"", int_phrase, info.zero, crate::api::show_occs(&occs), n.to_string()));
+    }
     None
 }
 
